@@ -153,6 +153,32 @@ func (m *Model) checkC07(i int, pre, post view) []common.Violation {
 	return out
 }
 
+// checkC07NodeBalances: the node's own answers after the truncation attempt equal the reference balances before it.
+func (m *Model) checkC07NodeBalances(i int, pre, post view) []common.Violation {
+	var out []common.Violation
+	R := m.W.Ref
+	for _, tip := range pre.S.Leaves {
+		if _, ok := post.live[tip]; !ok {
+			continue
+		}
+		if len(R.Ancestors(tip))+1 < len(pre.all()) {
+			continue // not the tip of everything: per-branch changes are the known global-checkpoint finding
+		}
+		for _, a := range m.addresses() {
+			want := m.refBalance(pre, tip, a)
+			if want.Sign() < 0 {
+				continue
+			}
+			got, err := m.balanceAt(i, R.Name(tip), a)
+			if err != nil || world.Big(got).Cmp(want) != 0 {
+				m.counters["C07.node-balance-changed"]++
+				out = append(out, viol("C07", "C07.balances", "C07.node-balance-changed-by-truncation", fmt.Sprintf("node %d: balance of %s over tip %s was %s before the truncation attempt, the node now answers %v (err %v)", i, world.AddrName(a), R.Name(tip), want, world.Big(got), err), nil))
+			}
+		}
+	}
+	return out
+}
+
 // checkC07State is the state part of the truncation oracle (no pre-state needed): checkpointed funds equal the
 // net flow of exactly the stored vertices, the stored set is ancestor-closed and disjoint from the live DAG.
 func (m *Model) checkC07State(i int, post view) []common.Violation {
